@@ -19,11 +19,29 @@ func init() {
 		return []string{transform.ReverseComplement(a[0]), transform.Complement(a[0]), transform.Reverse(a[0]), bstr(checks.IsPalindromic(a[0]))}, nil
 	})
 	runner.Register("variants", func(a []string) ([]string, error) {
-		// An expansion this check cannot receive, but small enough that the code would try to build
-		// it (up to terabytes), is not submitted at all: reply `too-large`, judged as "not observed".
-		// Same predicate as Driver/C11.lean canEnumerate / harnessCallsAbove.
-		if n, known := iupacCount(a[0]); known && !canEnumerate(n, len(a[0])) && n.Cmp(big.NewInt(harnessCallsAbove)) <= 0 {
-			return []string{"too-large"}, nil
+		// Three regimes besides the ordinary one (same predicates as Driver/C11.lean `regime`):
+		//  sampled   - too many readings to ship, but the code can build them within the memory budget:
+		//              the code IS called; reply `sampled <count> <entries 0, 100000, 200000, …, last>`
+		//  too-large - at most harnessCallsAbove readings but beyond the memory budget: not called
+		//  (above harnessCallsAbove the code is called and must refuse at once)
+		if n, known := iupacCount(a[0]); known {
+			switch regime(n, len(a[0])) {
+			case "too-large":
+				return []string{"too-large"}, nil
+			case "sampled":
+				v, err := variants.AllVariantsIUPAC(a[0])
+				if err != nil {
+					return nil, err
+				}
+				var sample []string
+				for i := 0; i < len(v); i += 100000 {
+					sample = append(sample, v[i])
+				}
+				if len(v) > 0 && (len(v)-1)%100000 != 0 {
+					sample = append(sample, v[len(v)-1])
+				}
+				return []string{"sampled", strconv.Itoa(len(v)), strings.Join(sample, ",")}, nil
+			}
 		}
 		v, err := variants.AllVariantsIUPAC(a[0])
 		if err != nil {
@@ -132,12 +150,20 @@ func iupacCount(s string) (*big.Int, bool) {
 	return n, true
 }
 
-func canEnumerate(n *big.Int, length int) bool {
-	if n.Cmp(big.NewInt(2000000)) > 0 {
-		return false
-	}
+const sampledBudget = 230000000 // readings x (letters+1) the code is still asked to build (about 3 GB)
+
+func regime(n *big.Int, length int) string {
 	t := new(big.Int).Mul(n, big.NewInt(int64(length+1)))
-	return t.Cmp(big.NewInt(30000000)) <= 0
+	if n.Cmp(big.NewInt(2000000)) <= 0 && t.Cmp(big.NewInt(50000000)) <= 0 {
+		return "full"
+	}
+	if n.Cmp(big.NewInt(harnessCallsAbove)) > 0 {
+		return "called-must-refuse"
+	}
+	if t.Cmp(big.NewInt(sampledBudget)) <= 0 {
+		return "sampled"
+	}
+	return "too-large"
 }
 
 func atoi(s string) int {
